@@ -718,68 +718,97 @@ fn drive_builder_ops(sink: &mut Sink, rng: &mut Rng, n: usize) {
     }
 }
 
+/// The families of large inputs, as functions of the size: what makes a member valid or invalid does not depend on it.
+fn big_family(i: usize, size: usize) -> Option<(&'static str, String)> {
+    let fill = |unit: &str, size: usize| -> String { unit.repeat(size / unit.len().max(1) + 1).chars().take(size).collect() };
+    let grow = |head: &str, item: &dyn Fn(usize) -> String, tail: &str| -> String {
+        let mut s = String::from(head);
+        let mut i = 0;
+        while s.len() < size {
+            s.push_str(&item(i));
+            i += 1;
+        }
+        s.push_str(tail);
+        s
+    };
+    Some(match i {
+        0 => ("long name", format!("pkg:t/{}", fill("a", size))),
+        1 => ("long escaped name", format!("pkg:t/{}", fill("%41", size))),
+        2 => ("many namespace segments", format!("pkg:t/{}n", fill("a/", size))),
+        3 => ("many empty segments", format!("pkg:t/{}n", fill("/", size))),
+        4 => ("many subpath dot segments", format!("pkg:t/n#{}", fill("../", size))),
+        5 => ("many qualifiers", grow("pkg:t/n?", &|i| format!("k{}=v&", i), "z=1")),
+        6 => ("duplicate qualifier far apart", grow("pkg:t/n?dup=1&", &|i| format!("k{}=v&", i), "DUP=2")),
+        7 => ("long checksum", grow("pkg:t/n?checksum=", &|i| format!("alg{}:00ff,", i), "z:00")),
+        8 => ("many percent signs", format!("pkg:t/{}", fill("%", size))),
+        9 => ("many at signs", format!("pkg:t/{}", fill("@", size))),
+        10 => ("many question marks", format!("pkg:t/n{}", fill("?", size))),
+        11 => ("many hashes", format!("pkg:t/n{}", fill("#", size))),
+        12 => ("long pypi name", format!("pkg:pypi/{}", fill("A_.-", size))),
+        13 => ("long nuget non-ascii name", format!("pkg:nuget/{}", fill("a\u{c6}", size / 2))),
+        14 => ("invalid utf8 at the end", format!("pkg:t/{}%80", fill("a", size))),
+        15 => ("long version", format!("pkg:t/n@{}", fill("1.", size))),
+        16 => ("long qualifier value", format!("pkg:t/n?download_url={}", fill("https://example.org/a/", size))),
+        17 => ("long subpath", format!("pkg:t/n#{}", fill("dir/", size))),
+        18 => ("long non-ascii name", format!("pkg:t/{}", fill("\u{65e5}\u{672c}", size / 3))),
+        19 => ("long namespace segment with an escaped slash", format!("pkg:t/{}%2Fb/n", fill("a", size))),
+        _ => return None,
+    })
+}
+
 fn drive_big(sink: &mut Sink, rng: &mut Rng, _n: usize) {
     let sizes = [64 * 1024usize, 256 * 1024, 1024 * 1024];
-    let fill = |unit: &str, size: usize| -> String { unit.repeat(size / unit.len().max(1) + 1).chars().take(size).collect() };
+    let kind = |r: &Value| if r.get("panic").is_some() { "panic" } else if r["ok"] == json!(true) { "ok" } else { "err" };
+    // the small twin of every family is an ordinary recorded parse, judged by TLC; a large member must fare alike
+    let mut twin_kind: Vec<(&'static str, &'static str)> = Vec::new();
+    let mut i = 0;
+    while let Some((what, s)) = big_family(i, 200) {
+        parse_all(sink, &s);
+        let (g, _) = replay::parse_outcome::<String>(&s);
+        let (t, _) = {
+            #[cfg(feature = "pt")]
+            {
+                replay::parse_outcome::<purl::PackageType>(&s)
+            }
+            #[cfg(not(feature = "pt"))]
+            {
+                (Value::Null, None::<GenericPurl<String>>)
+            }
+        };
+        twin_kind.push((kind(&g), if t.is_null() { "none" } else { kind(&t) }));
+        let _ = what;
+        i += 1;
+    }
     for size in sizes {
-        let mut inputs: Vec<(String, String)> = vec![
-            ("long name".into(), format!("pkg:t/{}", fill("a", size))),
-            ("long escaped name".into(), format!("pkg:t/{}", fill("%41", size))),
-            ("many namespace segments".into(), format!("pkg:t/{}n", fill("a/", size))),
-            ("many empty segments".into(), format!("pkg:t/{}n", fill("/", size))),
-            ("many subpath dot segments".into(), format!("pkg:t/n#{}", fill("../", size))),
-            ("many qualifiers".into(), {
-                let mut s = String::from("pkg:t/n?");
-                let mut i = 0;
-                while s.len() < size {
-                    s.push_str(&format!("k{}=v&", i));
-                    i += 1;
-                }
-                s.push_str("z=1");
-                s
-            }),
-            ("duplicate qualifier far apart".into(), {
-                let mut s = String::from("pkg:t/n?dup=1&");
-                let mut i = 0;
-                while s.len() < size {
-                    s.push_str(&format!("k{}=v&", i));
-                    i += 1;
-                }
-                s.push_str("DUP=2");
-                s
-            }),
-            ("long checksum".into(), {
-                let mut s = String::from("pkg:t/n?checksum=");
-                let mut i = 0;
-                while s.len() < size {
-                    s.push_str(&format!("alg{}:00ff,", i));
-                    i += 1;
-                }
-                s.push_str("z:00");
-                s
-            }),
-            ("many percent signs".into(), format!("pkg:t/{}", fill("%", size))),
-            ("many at signs".into(), format!("pkg:t/{}", fill("@", size))),
-            ("many question marks".into(), format!("pkg:t/n{}", fill("?", size))),
-            ("many hashes".into(), format!("pkg:t/n{}", fill("#", size))),
-            ("long pypi name".into(), format!("pkg:pypi/{}", fill("A_.-", size))),
-            ("long nuget non-ascii name".into(), format!("pkg:nuget/{}", fill("aÆ", size / 2))),
-            ("invalid utf8 at the end".into(), format!("pkg:t/{}%80", fill("a", size))),
-        ];
+        let mut inputs: Vec<(String, String, Option<(&'static str, &'static str)>)> = Vec::new();
+        let mut i = 0;
+        while let Some((what, s)) = big_family(i, size) {
+            inputs.push((what.to_owned(), s, Some(twin_kind[i])));
+            i += 1;
+        }
         let mut g = String::new();
         while g.len() < size {
             g.push_str(&garbage(rng));
         }
-        inputs.push(("concatenated garbage".into(), g));
-        for (what, s) in inputs {
+        inputs.push(("concatenated garbage".into(), g, None));
+        for (what, s, twin) in inputs {
             let t0 = std::time::Instant::now();
-            let kind = |r: &Value| if r.get("panic").is_some() { "panic" } else if r["ok"] == json!(true) { "ok" } else { "err" };
-            let (g, _) = replay::parse_outcome::<String>(&s);
+            let (g, gp) = replay::parse_outcome::<String>(&s);
             sink.emit(json!({"ev": "opaque", "what": what, "inst": "String", "len": s.len(), "kind": kind(&g), "ms": t0.elapsed().as_millis() as u64}));
+            sink.ctx.case = json!({"what": what, "len": s.len()});
+            if let Some((tg, _)) = twin {
+                // no property makes acceptance depend on the length: a legal spelling stays legal (C02), a faulty one faulty (C05)
+                let prop = if tg == "ok" { "C02" } else { "C05" };
+                sink.ctx.check(prop, "a large member of a family fares like its 200-byte twin, which TLC judged", "String", kind(&g) == tg, &json!(tg), &json!(kind(&g)));
+            }
+            // C09 at this size: the printed form of what was accepted parses back to the same value
+            if let Some(p) = &gp {
+                let back = display(p).and_then(|c| GenericPurl::<String>::from_str(&c).ok());
+                sink.ctx.check("C01", "canonical string of a large accepted input re-parses to an equal PURL", "String", back.as_ref() == Some(p), &Value::Null, &Value::Null);
+            }
             // C16 has no length limit either: a string value deserialises exactly when the string parses
             #[cfg(feature = "sd")]
             {
-                sink.ctx.case = json!({"what": what, "len": s.len()});
                 let js = serde_json::to_string(&s).expect("json string");
                 let r = catch_unwind(AssertUnwindSafe(|| serde_json::from_str::<GenericPurl<String>>(&js)));
                 let dk = match &r {
@@ -798,7 +827,38 @@ fn drive_big(sink: &mut Sink, rng: &mut Rng, _n: usize) {
                 let t0 = std::time::Instant::now();
                 let (t, _) = replay::parse_outcome::<purl::PackageType>(&s);
                 sink.emit(json!({"ev": "opaque", "what": what, "inst": "Purl", "len": s.len(), "kind": kind(&t), "ms": t0.elapsed().as_millis() as u64}));
+                if let Some((_, tt)) = twin {
+                    let prop = if tt == "ok" { "C02" } else { "C05" };
+                    sink.ctx.check(prop, "a large member of a family fares like its 200-byte twin, which TLC judged", "Purl", kind(&t) == tt, &json!(tt), &json!(kind(&t)));
+                }
             }
+        }
+    }
+    // the builder has no limit either (C09): a long value in every field, built, printed and parsed back
+    for size in [64 * 1024usize, 256 * 1024] {
+        let long: String = "ab".repeat(size / 2);
+        let r = catch_unwind(AssertUnwindSafe(|| {
+            GenericPurlBuilder::new("t".to_owned(), long.clone())
+                .with_namespace(format!("{}/x", long))
+                .with_version(long.clone())
+                .with_subpath(format!("d/{}", long))
+                .with_qualifier("download_url", long.clone())
+                .and_then(|b| b.build())
+        }));
+        sink.ctx.case = json!({"what": "builder with long fields", "len": size});
+        match r {
+            Err(_) => {
+                sink.ctx.check("C06", "no panic", "String", false, &Value::Null, &json!({"panic": true}));
+            },
+            Ok(Err(_)) => {
+                sink.ctx.check("C09", "build succeeds for long field values", "String", false, &Value::Null, &Value::Null);
+            },
+            Ok(Ok(p)) => {
+                let ok = p.name() == long && p.version() == Some(long.as_str()) && p.qualifiers().get("download_url") == Some(long.as_str());
+                sink.ctx.check("C09", "accessors return the long values that were set", "String", ok, &Value::Null, &Value::Null);
+                let back = display(&p).and_then(|c| GenericPurl::<String>::from_str(&c).ok());
+                sink.ctx.check("C09", "string form of a long PURL parses back to the same fields", "String", back.as_ref() == Some(&p), &Value::Null, &Value::Null);
+            },
         }
     }
 }
@@ -1013,7 +1073,7 @@ const V_VALS: &[&str] = &["jar", "pom", "sources", "war", "zip", "linux", "amd64
                           "https://registry.npmjs.org", "https://repo.maven.apache.org/maven2", "https://pypi.org/simple", "https://crates.io",
                           "https://rubygems.org", "https://proxy.golang.org", "https://api.nuget.org/v3/index.json", "docker.io", "hub.docker.com"];
 const V_SUBS: &[&str] = &["", "src/main", "cmd/tool/v2", "googleapis/api/annotations", "v2"];
-const V_COMBINED: &[&str] = &["github.com/!burnt!sushi/toml", "example.com/!x", "!a/b", "a/!b", "github.com/go-redis/redis/v8", "a/v2", "a/v10/b", "example.com/m/v10", "gopkg.in/yaml.v3", "k8s.io/api/v0", "@angular/cli", "@types%2Fnode",
+const V_COMBINED: &[&str] = &["requests[security]", "a[b]", "uvicorn[standard]==0.20", "name;python_version<'3.8'", "github.com/!burnt!sushi/toml", "example.com/!x", "!a/b", "a/!b", "github.com/go-redis/redis/v8", "a/v2", "a/v10/b", "example.com/m/v10", "gopkg.in/yaml.v3", "k8s.io/api/v0", "@angular/cli", "@types%2Fnode",
                               "@types/node/v2", "org.apache.commons:io", "g:a:v2", "org.apache:commons/io", "libc", "v2", "/v2", "a/v2/"];
 
 fn drive_vocab(sink: &mut Sink, _rng: &mut Rng, n: usize) {
